@@ -15,8 +15,8 @@ import (
 
 func init() {
 	register(&core.Property{
-		ID:    "C06",
-		Title: "Same cluster state gives the same behaviour, whatever the processing order",
+		ID:          "C06",
+		Title:       "Same cluster state gives the same behaviour, whatever the processing order",
 		Explanation: "Static decision of where processing order can leak into the result: (1) every `range` over a Go map in the conversion and rendering packages is classified from its body (direct effects and transitive effect summaries of the functions it calls): order-insensitive (map/set writes keyed per element, effects confined to the element, any/all quantifiers, counters), collected-then-sorted before use, or a listed exception with its reason; anything else is order-sensitive and fails unless it is a listed known finding; (2) API list results are sorted by (creation time, namespace/name) before use and the comparators are total on that key (shared with C03); (3) CreateEndpoints sorts both results; sorted-output helpers end in a strict comparison of the collection's key; (4) the annotation mapper keeps the first writer of a key and reports, never overwrites, a different later value.",
 		NotDecided: []string{
 			"equality of the outputs of two runs",
@@ -271,11 +271,11 @@ func ownedTypes(t types.Type) map[string]bool {
 // ---------------------------------------------------------------------------
 
 type loopFacts struct {
-	fn      *ssa.Function
-	rng     *ssa.Range
-	body    map[*ssa.BasicBlock]bool
-	elemT   types.Type
-	keyT    types.Type
+	fn    *ssa.Function
+	rng   *ssa.Range
+	body  map[*ssa.BasicBlock]bool
+	elemT types.Type
+	keyT  types.Type
 }
 
 func mapLoops(env *core.Env, fn *ssa.Function) []loopFacts {
@@ -402,21 +402,21 @@ type loopVerdict struct {
 
 // listed exceptions and known order-sensitive loops: key = function name + " over " + ranged expression
 var c06Listed = map[string]loopVerdict{
-	"(*converters/ingress.converter).syncPartial over ingMap": {"S", "the collected ingresses are sorted by sortIngress before use; syncDefaultBackend runs for at most one key (the default-backend pseudo ingress)"},
-	"(*converters/ingress/annotations.Mapper).AddAnnotations over ann":                        {"X", "per-key inserts into the mapper are keyed by the element; the appended conflict list is only rendered in a log line"},
-	"(*haproxy.config).SyncConfig over c.hosts.ItemsAdd()":                                    {"X", "under strict-host a root path is added to each host lacking one: this appends to the default backend's path list, whose positions only number internal path ids"},
-	"(*haproxy.config).WriteBackendMaps over c.backends.ItemsAdd()":                           {"X", "one pair of map files per backend; the order in which independent files are registered and written is irrelevant"},
-	"(*haproxy.config).WriteTCPServicesMaps over c.tcpservices.Items()":                       {"X", "one map file per tcp port: independent files"},
-	"(*haproxy.instance).writeCrtLists over i.config.TCPServices().Items()":                   {"X", "one crt-list file per tcp port: independent files"},
-	"(*converters/ingress.converter).fullSyncTCP over tcpPort.Hosts()":                        {"X", "UpdateTCPHostConfig writes the TLS entry keyed by this host's own name"},
-	"(*converters/ingress.converter).fullSyncAnnotations over c.haproxy.Backends().Items()":   {"X", "cross-element accesses of UpdateBackendConfig are: the used-auth-backend scan when the auth-proxy range is exhausted (port numbering is an internal label), the lookup of the auth service backend by id (reads nothing the loop writes), and the userlist acquire (idempotent: content is a function of the secret). The order-dependent oauth lookup is reported at its own loop (updater.findBackend)"},
+	"(*converters/ingress.converter).syncPartial over ingMap":                                     {"S", "the collected ingresses are sorted by sortIngress before use; syncDefaultBackend runs for at most one key (the default-backend pseudo ingress)"},
+	"(*converters/ingress/annotations.Mapper).AddAnnotations over ann":                            {"X", "per-key inserts into the mapper are keyed by the element; the appended conflict list is only rendered in a log line"},
+	"(*haproxy.config).SyncConfig over c.hosts.ItemsAdd()":                                        {"X", "under strict-host a root path is added to each host lacking one: this appends to the default backend's path list, whose positions only number internal path ids"},
+	"(*haproxy.config).WriteBackendMaps over c.backends.ItemsAdd()":                               {"X", "one pair of map files per backend; the order in which independent files are registered and written is irrelevant"},
+	"(*haproxy.config).WriteTCPServicesMaps over c.tcpservices.Items()":                           {"X", "one map file per tcp port: independent files"},
+	"(*haproxy.instance).writeCrtLists over i.config.TCPServices().Items()":                       {"X", "one crt-list file per tcp port: independent files"},
+	"(*converters/ingress.converter).fullSyncTCP over tcpPort.Hosts()":                            {"X", "UpdateTCPHostConfig writes the TLS entry keyed by this host's own name"},
+	"(*converters/ingress.converter).fullSyncAnnotations over c.haproxy.Backends().Items()":       {"X", "cross-element accesses of UpdateBackendConfig are: the used-auth-backend scan when the auth-proxy range is exhausted (port numbering is an internal label), the lookup of the auth service backend by id (reads nothing the loop writes), and the userlist acquire (idempotent: content is a function of the secret). The order-dependent oauth lookup is reported at its own loop (updater.findBackend)"},
 	"(*converters/ingress.converter).partialSyncAnnotations over c.haproxy.Backends().ItemsAdd()": {"X", "same as fullSyncAnnotations over the backends"},
-	"(*haproxy/types.HostsMap).rebuildMatchFiles over hm.rawhosts": {"X", "entries of different hosts never share a key (host#path): the order in which hosts create their priority files changes file numbering, not which entry a key matches"},
-	"(*haproxy/types.Hosts).FindTargetRedirect over h.items":       {"X", "at most one host can own a redirect source (buildHostRedirect refuses a second owner), so at most one element matches"},
-	"haproxy/types.buildAcmeStorages over items":                   {"S", "outer result is consumed by queue Add/Remove (a set); inner domain list is sorted"},
-	"(*haproxy/types.Backends).ShuffleAllEndpoints over b.items":   {"X", "random by option (--sort-endpoints-by=random)"},
-	"(*haproxy.dynUpdater).frontendUpdated over hosts":             {"X", "conjunction of per-host results; socket commands of distinct hosts are independent"},
-	"(*haproxy.dynUpdater).backendUpdated over backends":           {"X", "conjunction of per-backend results; socket commands of distinct backends are independent"},
+	"(*haproxy/types.HostsMap).rebuildMatchFiles over hm.rawhosts":                                {"X", "entries of different hosts never share a key (host#path): the order in which hosts create their priority files changes file numbering, not which entry a key matches"},
+	"(*haproxy/types.Hosts).FindTargetRedirect over h.items":                                      {"X", "at most one host can own a redirect source (buildHostRedirect refuses a second owner), so at most one element matches"},
+	"haproxy/types.buildAcmeStorages over items":                                                  {"S", "outer result is consumed by queue Add/Remove (a set); inner domain list is sorted"},
+	"(*haproxy/types.Backends).ShuffleAllEndpoints over b.items":                                  {"X", "random by option (--sort-endpoints-by=random)"},
+	"(*haproxy.dynUpdater).frontendUpdated over hosts":                                            {"X", "conjunction of per-host results; socket commands of distinct hosts are independent"},
+	"(*haproxy.dynUpdater).backendUpdated over backends":                                          {"X", "conjunction of per-backend results; socket commands of distinct backends are independent"},
 }
 
 func c06MapRanges(c *core.Ctx) {
